@@ -393,6 +393,13 @@ def run(ctx):
                      % (meth, d['why'], ' > '.join(d['ctx'])))
         else:
             ctx.ok('C13.R2', site, '%s(%s) receives a known rule key' % (meth, arg))
+    # the refinements used above (a name that passed is_attribute_supported / a dereferencing query is a rule key) hold only if the policy
+    # methods test and look up the very name they are given
+    for meth, probs in sorted(ai.pol.guard_quality.items()):
+        site = '%s AttributePolicy.%s' % (POLICY, meth)
+        ctx.check(not probs, 'C13.R2', 'AttributePolicy.%s|tests-the-given-name' % meth, site, 'membership test and rule-set lookups use the name parameter unmodified',
+                  'the policy query does not decide about the name it is given (%s): a name it reports as supported need not have a rule set under that name, and the other queries dereference None for it' % '; '.join(probs))
+    ctx.count('policy_query_methods', len(ai.pol.guard_quality), 6)
     # informational: decodable names without a rule entry are treated as unknown names by the analysis above
     extra = sorted(ai.byenum_names - ai.allnames)
     if extra:
